@@ -1,6 +1,7 @@
 package gvc
 
 import (
+	"go/ast"
 	"fmt"
 	"go/constant"
 	"go/types"
@@ -398,7 +399,12 @@ func (vc *VC) trField(e *EField, env *specEnv, c *Clause) sval {
 		if _, isVar := env.vars[id.Name]; !isVar {
 			if _, isB := env.lookupBound(id.Name); !isB {
 				if _, isCell := env.freeCells[id.Name]; !isCell {
-					if _, _, isGhost := vc.ghostKey(id.Name); !isGhost {
+					if _, _, isGhost := vc.ghostKey(id.Name); !isGhost && len(vc.localRefs[id.Name]) == 0 {
+						// (a local variable of the function shadows a package of the same name; where it is not in
+						// scope the clause is not evaluated, as for any other local)
+						if vc.hasLocalNamed(id.Name) {
+							vc.fail("unknown identifier %s (a local variable that is not in scope here)", id.Name)
+						}
 						if p := vc.findImport(env, id.Name); p != nil {
 							if obj := p.Scope().Lookup(e.Name); obj != nil {
 								return vc.trObject(obj, env, c)
@@ -863,4 +869,28 @@ func (vc *VC) resolveType(text string, pkg *types.Package, c *Clause) types.Type
 	}
 	vc.specFail(c, "cannot resolve type %q", text)
 	return nil
+}
+
+// hasLocalNamed: the function declares a local variable of this name somewhere (static scan).
+func (vc *VC) hasLocalNamed(name string) bool {
+	if vc.localNames == nil {
+		vc.localNames = map[string]bool{}
+		for _, b := range vc.fn.Blocks {
+			for _, ins := range b.Instrs {
+				switch x := ins.(type) {
+				case *ssa.Alloc:
+					if x.Comment != "" {
+						vc.localNames[x.Comment] = true
+					}
+				case *ssa.DebugRef:
+					if id, ok := x.Expr.(*ast.Ident); ok {
+						if _, isFn := x.X.(*ssa.Function); !isFn {
+							vc.localNames[id.Name] = true
+						}
+					}
+				}
+			}
+		}
+	}
+	return vc.localNames[name]
 }
